@@ -9,6 +9,7 @@ def generate(seed, tier):
     for (nl, ms) in runs:
         lines.append("race inproc %d %d %d # spec=C09 eq delivered-all" % (nl, ms, g.rint(1, 10**6)))
         g.count("stress_runs")
+    lines.append("race exitflag %d # spec=C09 eq ok" % (20 if tier == "quick" else 200))
     # the three separately locked steps of a dispatch racing with membership changes at full speed
     for _ in range(2 if tier == "quick" else 10):
         lines.append("rr race %d %d # spec=C09 eq ok" % (500 if tier == "quick" else 3000, g.rint(1, 10**6)))
